@@ -12,7 +12,7 @@ CURATED = [
     '\\)', '(\\)', '[\n]', '(\n)', 'a\nb', '^$', '$^', '\\A\\Z', '(?', '(?)', '(?#a)', '(?i)', 'a||b', '|a', 'a|',
     '||', "'\"", "a'b", 'a"b', '/a/', '//', 'é$', '\tx', 'x y', '-a-', '[-]', '[a-]', '[^', '^]', '$$', '$$$', '$$$$',
 ]
-CURATED += ['e\u0301', '\u0301', 'a\u0300\u0301b', '\u200d', 'a\ufe0f', '\u0627\u0651', '\U0001f468\u200d\U0001f469', '\x00', 'a\x00b', '\x7f', '\x85', '\u2028',
+CURATED += ['%', '%d', '100%', '%%', 'b', ':a', '::', ':', 'a:', '?:a', "it's \"x\"", 'e\u0301', '\u0301', 'a\u0300\u0301b', '\u200d', 'a\ufe0f', '\u0627\u0651', '\U0001f468\u200d\U0001f469', '\x00', 'a\x00b', '\x7f', '\x85', '\u2028',
             '\ud800', '\udfff', '\U0010ffff', '\ufeff', '\ufffe', '}', '{', 'a}', '{a', '{}', '{0}', '{x}', '%s', '%(a)s', '{0', '0}']
 for _c in "\\^$()[]{}?+*.|/":
     CURATED.append(_c * 3)
@@ -38,11 +38,11 @@ def all_literals():
 
 
 # shape-representative literals for deeper levels
-CORE_LITERALS = ['e\u0301', '}', 'a', 'ab', '.', '\\', '$', 'a$', '^', '[', ']', '(', ')', '(a)', '|', 'a|b', '?', '*', '+',
+CORE_LITERALS = ['e\u0301', '}', '%', 'b', ':a', 'a', 'ab', '.', '\\', '$', 'a$', '^', '[', ']', '(', ')', '(a)', '|', 'a|b', '?', '*', '+',
                  '{2}', 'a{1,2}', '-', '/', '\n', "'", '"', 'é', '\\b', '\\A', '(?:', '(?=b)', '[a]', '[^a]',
                  '\\1', '1', ' ', '[(', 'US$', 'a[b', 'x(']
 
-SMALL_LITERALS = ['a', 'ab', '$', '[', '(', ')', 'a|b', '?', '\\', '1']
+SMALL_LITERALS = ['a', 'b', 'ab', '$', '[', '(', ')', 'a|b', '?', '\\', '1', '%']
 
 CLASS_ATOMS = ['AnyDigit()', 'Any()', "AnyBetween('a', 'c')", "AnyFrom('+', '-')", "AnyFrom('|', 'x')",
                "AnyButFrom('(', ')')", 'AnyLetter()', 'AnyWordChar(is_global=True)', 'AnyButWhitespace()',
@@ -79,4 +79,4 @@ def small_atoms():
 
 
 def tiny_atoms():
-    return atom_list(['a', '[', 'a|b'], ['AnyDigit()', "AnyFrom('|', 'x')", 'Pregex()', "Either('a', 'b')"])
+    return atom_list(['a', 'b', '[', 'a|b'], ['AnyDigit()', "AnyFrom('|', 'x')", 'Pregex()', "Either('a', 'b')"])
